@@ -21,7 +21,8 @@ THEOREMS = [
     "C11.concat_map_ordered",
 ]
 RULE = ("outer timeline (cold or hot, completing / erroring / never completing) of 0..4 inner sources (cold, hot, 'rude' hot, or "
-        "notifying synchronously inside subscribe; empty, erroring, never-completing), times on a 5-tick grid so that simultaneous "
+        "notifying synchronously inside subscribe, or rx.timer-based inners WITHOUT their own scheduler, which run on the scheduler handed "
+        "down by subscribe - also when started from the queue; empty, erroring, never-completing), times on a 5-tick grid so that simultaneous "
         "notifications are frequent; operators merge_all, merge(max_concurrent=1..4), flat_map / flat_map_indexed / concat_map with a "
         "mapper that may raise, rx.merge; optional dispose; the recorded global event list is replayed through the Lean machine and "
         "outputs (timed) and subscribe/unsubscribe effects are compared per event in same-instant order (for inners that notify inside "
@@ -52,21 +53,31 @@ def cases(rng, tier):
     n = fw.tier_scale(tier, 4000, 60000)
     for i in range(n):
         op = OPS[i % len(OPS)]
-        c = cc.gen_ho_case(rng, op)
+        # inners that take their scheduler from the subscription (rx.timer without a scheduler) - also as QUEUED inners
+        c = cc.gen_ho_case(rng, op, p_timer=0.3)
         if op == "merge":
             c["maxc"] = rng.choice([1, 1, 2, 2, 3, 4])
         if op == "rx_merge":
             c["outer"]["msgs"] = [m for m in c["outer"]["msgs"] if m[1] == "N"]
             c["outer"]["mode"] = "cold"
+        # oracle-only: a second subscriber on the same observable instance must see what a fresh instance gives it
+        if op != "rx_merge" and rng.random() < (0.2 if op in ("merge", "concat_map") else 0.05):
+            c["second"] = cc.gen_second(rng)
+            c["dispose"] = None
         yield c
 
 
 def impl(case):
+    if "second" in case:
+        r = cc.run_second_subscriber(lambda: cc.ho_world_and_build(case)[:2], case["second"])
+        return {"second": r, "log": [], "split": cc.split_log([]), "idx": []}
     log, idx_seen = cc.run_ho(case)
     return {"split": cc.split_log(log, cc.sync_ids_of(case)), "log": log, "idx": idx_seen}
 
 
 def model_request(case):
+    if "second" in case:
+        return None
     log, _ = cc.run_ho(case)
     sp = cc.split_log(log, cc.sync_ids_of(case))
     r = cc.ho_model_op(case)
@@ -93,6 +104,12 @@ def maxc_of(case):
 
 
 def oracle(case, out):
+    if "second" in out:
+        r = out["second"]
+        if r["outB"] != r["fresh"]:
+            return (f"a second subscriber (at {case['second']['sub2']}, first one disposed at {case['second']['dispose1']}) of the same "
+                    f"observable got {r['outB']}, a subscriber of a fresh instance gets {r['fresh']}: not exactly the elements of the inners IT received")
+        return None
     log = out["log"]
     got = cc.outputs(out["split"])
     if not cc.grammar_ok(got):
@@ -162,16 +179,25 @@ def oracle(case, out):
         rs = [rank.get(k, -1) for k in seq]
         if rs != sorted(rs) or -1 in rs:
             return f"max_concurrent=1 output is not the concatenation in arrival order: {seq} (arrival {arrived})"
+    # (7) inners that run on the subscription's scheduler deliver at their virtual times, queued or not
+    v = cc.timer_delivery_failure(case["inners"].values(), log)
+    if v:
+        return v
     if case["op"] == "flat_map_indexed" and out["idx"] != list(range(len(out["idx"]))):
         return f"flat_map_indexed passed indices {out['idx']}"
     return None
 
 
 def nontrivial(case, out):
+    if "second" in out:
+        return len(out["second"]["fresh"]) > 0
     return any(e[0] == "sub" and e[1] != 0 for e in out["log"])
 
 
 def bucket(case, out):
+    if "second" in out:
+        yield "second_subscriber"
+        return
     sp = out["split"]
     got = cc.outputs(sp)
     yield f"op={case['op']}" + (f"-{case['maxc']}" if "maxc" in case else "")
@@ -184,14 +210,18 @@ def bucket(case, out):
     for s in case["inners"].values():
         yield "inner=" + s["mode"] + ("-rude" if s.get("rude") else "")
     if maxc_of(case) is not None:
-        arrived = len([1 for e in out["log"] if e[0] == "ev" and e[1] == 0 and e[2][0] == "N"])
-        yield "queued=" + str(arrived > maxc_of(case))
+        arrived = [e[2][1] for e in out["log"] if e[0] == "ev" and e[1] == 0 and e[2][0] == "N"]
+        yield "queued=" + str(len(arrived) > maxc_of(case))
+        subs_t = {e[1]: e[2] for e in out["log"] if e[0] == "sub"}
+        arr_t = {e[2][1]: e[3] for e in out["log"] if e[0] == "ev" and e[1] == 0 and e[2][0] == "N"}
+        if any(case["inners"].get(str(k), {}).get("mode") == "timer" and k in subs_t and subs_t[k] > arr_t[k] for k in arrived):
+            yield "queued_timer_inner_started_later"
 
 
 def shrink(case):
     for k in list(case["inners"]):
         s = case["inners"][k]
-        for j in range(len(s["msgs"])):
+        for j in range(len(s.get("msgs", []))):
             c = copy.deepcopy(case)
             del c["inners"][k]["msgs"][j]
             yield c
